@@ -198,12 +198,12 @@ theorem parseLabels_toks (ls : List Label) : ∀ (fuel : Nat) (p : Parser) (acc 
     refine ⟨⟨l.name, a⟩ :: got, last', p', ?_, by simp [hnames], hrem, htoks⟩
     unfold parseLabels
     simp only [hne, Bool.false_eq_true, if_false, hl]
-    have hmatch : ∀ (q : Parser), (match tokOf p.advance with | some .colon => q | _ => p.advance) = p.advance := by
-      intro q
+    have hmatch : skipColon p.advance = p.advance := by
+      unfold skipColon
       split
       · rename_i hc; exact absurd hc hnc
       · rfl
-    first | (rw [hres]; simp) | (rw [hmatch, hres]; simp)
+    rw [hmatch, hres]; simp
 
 theorem rem_advance_nil (p : Parser) (h : rem p = []) : rem p.advance = [] := by
   unfold rem at h ⊢
